@@ -166,7 +166,7 @@ pub struct Case10W {
     pub sort: u8,
 }
 
-pub const FAMILIES: u8 = 9;
+pub const FAMILIES: u8 = 10;
 pub const MEMBERS: u8 = 3;
 
 /// text of member `m` of family `f` in spelling `sp` (spellings denote the same value)
@@ -182,6 +182,9 @@ pub fn near_dup(f: u8, m: u8, sp: u8) -> String {
         5 => format!("[\"{}\",\"{}{}{}\"]", "q".repeat(80), x0, "x".repeat(70), tail),
         6 => format!("\"{}{}{}\"", x0, "x".repeat(63), ["", "yy", "yyy"][m as usize % 3]),
         7 => ["1", "\"1\"", "true"][m as usize % 3].to_string() + if sp % 2 == 1 && m % 3 == 0 { ".0" } else { "" },
+        // the same members and values in the same order, nested differently (a digest that
+        // does not mark where an object ends cannot tell the first two apart)
+        8 => ["{\"a\":{\"b\":1}}", "{\"a\":{},\"b\":1}", "{\"a\":{\"b\":{}}}"][m as usize % 3].replace(":1", if sp % 2 == 1 { ":1.0" } else { ":1" }),
         _ => format!("[[[[[[[[{}]]]]]]]]", if sp % 2 == 1 { format!("{}.00", m) } else { format!("{}", m) }),
     }
 }
@@ -343,7 +346,7 @@ impl Check for C10Wide {
 }
 
 pub fn run_all(ctx: &mut Ctx) {
-    ctx.rule = "C10.equality: jawk's = matrix over the whole universe must be an equivalence and agree with structural/numeric equality (exhaustive over pairs). C10.unique: 0..40 rows whose 0..3 selected values come from a per-case pool of 1..6 universe values (numerically equal spellings, escape variants, nested equal collections) or are absent; oracle: output with --unique = first-occurrence filter of the output without it under jawk's own = relation per selected value (absent only equals absent). non-trivial = at least one removed duplicate whose text differs from its first occurrence and >= 2 kept rows. C10.unique_wide: rows whose 0..3 selected values are large near-duplicates (nine families: 65- and 241-character strings, 31-element arrays, 13-member objects, depth-8 nesting, each with three members that differ only at the very end, and two spellings per member), selections that share a title, JSON or csv output, optionally --sort-by on a member that is not selected (the survivors are the first occurrences in arrival order, then sorted), 0..40 explicit rows or 1000..5000 (70000 thorough) rows derived from a seed; oracle: first-occurrence filter of the plain output under equality by (family, member) per column; non-trivial = something was removed and two kept rows differ only in the tail of a value".into();
+    ctx.rule = "C10.equality: jawk's = matrix over the whole universe must be an equivalence and agree with structural/numeric equality (exhaustive over pairs). C10.unique: 0..40 rows whose 0..3 selected values come from a per-case pool of 1..6 universe values (numerically equal spellings, escape variants, nested equal collections) or are absent; oracle: output with --unique = first-occurrence filter of the output without it under jawk's own = relation per selected value (absent only equals absent). non-trivial = at least one removed duplicate whose text differs from its first occurrence and >= 2 kept rows. C10.unique_wide: rows whose 0..3 selected values are large near-duplicates (ten families: 65- and 241-character strings, objects with the same members nested differently, 31-element arrays, 13-member objects, depth-8 nesting, each with three members that differ only at the very end, and two spellings per member), selections that share a title, JSON or csv output, optionally --sort-by on a member that is not selected (the survivors are the first occurrences in arrival order, then sorted), 0..40 explicit rows or 1000..5000 (70000 thorough) rows derived from a seed; oracle: first-occurrence filter of the plain output under equality by (family, member) per column; non-trivial = something was removed and two kept rows differ only in the tail of a value".into();
     ctx.assumptions = vec!["universe excludes -0 and member-order permutations (quantifier)".into()];
     run_equality(ctx);
     C10Unique.run(ctx);
